@@ -72,12 +72,15 @@ class Stats:
 
 
 class Path:
-    __slots__ = ("solver", "prefix", "decisions", "conds", "steps", "notes", "model")
+    __slots__ = ("solver", "prefix", "decisions", "conds", "steps", "notes", "model", "known", "pinned", "vals")
 
     def __init__(self, solver, prefix, model=None):
         self.solver = solver
         self.prefix = prefix
         self.model = model  # a model of all conditions taken so far (concolic guidance: no query per branch)
+        self.known = {}  # z3 ast id of a condition already on the path -> its truth value
+        self.pinned = []  # (variable, value) pairs fixed by value forks: substituted before deciding anything
+        self.vals = {}  # z3 ast id of an expression already concretised on this path -> value
         self.decisions = []  # bool (branch) or int (value fork) or ("v", int)
         self.conds = []
         self.steps = 0
@@ -147,6 +150,15 @@ class SBool:
             return True
         if z3.is_false(e):
             return False
+        if p.pinned:
+            e = z3.simplify(z3.substitute(e, *p.pinned))
+            if z3.is_true(e):
+                return True
+            if z3.is_false(e):
+                return False
+        eid = e.get_id()
+        if eid in p.known:
+            return p.known[eid]  # same condition already decided on this path: no new decision
         k = len(p.decisions)
         p.steps += 1
         if p.steps > MAX_STEPS:
@@ -172,6 +184,9 @@ class SBool:
                 p.model = p.solver.model()
         p.decisions.append(d)
         p.conds.append(e if d else z3.Not(e))
+        p.known[eid] = d
+        if z3.is_not(e):
+            p.known[e.arg(0).get_id()] = not d
         return d
 
     def __and__(self, o):
@@ -207,6 +222,13 @@ def _fork_value(expr):
     expr = z3.simplify(expr)
     if z3.is_int_value(expr):
         return expr.as_long()
+    if p.pinned:
+        expr = z3.simplify(z3.substitute(expr, *p.pinned))
+        if z3.is_int_value(expr):
+            return expr.as_long()
+    xid = expr.get_id()
+    if xid in p.vals:
+        return p.vals[xid]
     k = len(p.decisions)
     p.steps += 1
     if p.steps > MAX_STEPS:
@@ -217,6 +239,9 @@ def _fork_value(expr):
         v = p.model.eval(expr, model_completion=True).as_long()
     p.decisions.append(("v", v))
     p.conds.append(expr == v)
+    p.vals[xid] = v
+    if z3.is_const(expr) and expr.decl().kind() == z3.Z3_OP_UNINTERPRETED:
+        p.pinned.append((expr, z3.IntVal(v)))
     return v
 
 
@@ -679,6 +704,10 @@ def _outcome_class(fn, kwargs, allowed):
             fr = tb[-1]
             where = f"{fr.filename.split('/')[-1]}:{fr.lineno}:{fr.name}"
             func = f"{fr.filename.split('/')[-1]}:{fr.name}"
+        last = tb[-1].filename if tb else ""
+        if "/verif/harness/" in last or "/verif/engine/" in last or "/verif/geom/" in last:
+            # the exception was raised by harness code itself, not by (or below) the code under test
+            return ("harness-bug", type(ex).__name__, f"{where}: {str(ex)[:200]} [{last}:{tb[-1].lineno}]", func)
         return ("raised", type(ex).__name__, f"{where}: {str(ex)[:200]}", func)
 
 
@@ -695,6 +724,7 @@ def explore(
     witness_rule=None,
     seed=0,
     known_labels=(),
+    need_ok=True,
 ):
     """Explore fn over the declared integer variables.
 
@@ -771,6 +801,9 @@ def explore(
             if (cout[0], cout[1]) != (out[0], out[1]):
                 harness_errors.append({"model": model, "symbolic": list(out), "concrete": list(cout)})
                 continue
+        if out[0] == "harness-bug":
+            harness_errors.append({"model": model, "harness-bug": list(out)})
+            continue
         bad = out[0] == "violated" or (out[0] == "raised" and unexpected_is_violation)
         if bad:
             label = f"{out[0]}:{out[1]}" + (f"@{out[3]}" if out[3] else "")
@@ -792,9 +825,9 @@ def explore(
         verdict = "violated"
     elif inconclusive or STATS.unknown:
         verdict = "inconclusive"
-    elif reached == 0:
+    elif outcome_counts.get("ok", 0) == 0 and need_ok:
         verdict = "inconclusive"
-        inconclusive.append("no path reached an outcome (vacuous)")
+        inconclusive.append("no path completed normally: every path was refused/dropped (vacuous)")
     else:
         verdict = "holds"
     return {
